@@ -16,6 +16,7 @@ import (
 	"errors"
 	"fmt"
 	"io"
+	"math/rand"
 	"os"
 	"regexp"
 	"runtime"
@@ -26,6 +27,7 @@ import (
 
 	"github.com/ARM-software/golang-utils/utils/filesystem"
 	"github.com/ARM-software/golang-utils/utils/sharedcache"
+	"github.com/gofrs/uuid/v5"
 	deadlock "github.com/sasha-s/go-deadlock"
 	"github.com/spf13/afero"
 
@@ -266,6 +268,9 @@ func (w *world) afterFault(o *vfsx.Op) {
 
 func body(sc scenario) func(x *gosim.Exec) {
 	return func(x *gosim.Exec) {
+		// package names of the immutable cache are UUIDs: the generator is re-seeded for every execution so that
+		// names (hence directory listing order) are a function of the schedule
+		uuid.DefaultGenerator = uuid.NewGenWithOptions(uuid.WithRandomReader(rand.New(rand.NewSource(7))))
 		n := len(sc.Scripts)
 		w := &world{x: x, sc: sc, lockOwner: -1, outcome: make([]string, n+1), curOp: make([]string, n+2), uuids: map[string]int{}}
 		x.User = w
@@ -371,6 +376,8 @@ func body(sc scenario) func(x *gosim.Exec) {
 				return
 			}
 			w.curOp[n] = "judge"
+			x.Gate(n, "judge: all clients finished")
+			x.Freeze() // the verdict at quiescence is sequential: no more deviations
 			time.Sleep(250 * time.Millisecond)
 			cache := newCache(sc.Cache, backend, shared, n)
 			_ = cache.CleanEntry(x.Ctx(), key)
